@@ -449,7 +449,9 @@ def json_rawchar_root_cause(parse_string, text, c0, drop_keys, modulo_none=False
     raw): the same text with just these characters written as \\uXXXX escapes re-parses to the original."""
     import re
 
-    alt = re.sub("[^\n\x20-\x7e]", _json_escape_char, text)
+    # characters outside the BMP stay raw: the yaml reader accepts them raw, and their JSON escape is a UTF-16
+    # surrogate pair, which a YAML reader does not take for one character
+    alt = re.sub("[^\n\x20-\x7e\U00010000-\U0010ffff]", _json_escape_char, text)
     if alt == text:
         return False
     cls, _, _ = judge_reparse(parse_string, alt, c0, drop_keys, modulo_none)
